@@ -124,14 +124,19 @@ def gen_cases(ctx, n_ds, n_tf):
       shape = rng.choice([[2], [2, 2]] if b == 3 else [[2], [3], [2, 3], [3, 3], [2, 2], [3, 2, 2]])
       comps[0] = [rng.choice([[b], [b, 2], [2, b]]), rng.rint(-3, 3)]
     nb = n_blocks_ds(shape, b)
+    scales = [rng.rint(-6, 6) for _ in range(nb)] if i % 5 else [0] * nb
+    if cfg["eigh"] and max(scales) >= 2:
+      # matrix_inverse_pth_root_eigh reports an ABSOLUTE residual (~ lambda_max * u): for gradient
+      # scales >= 1e2 it reaches the default acceptance gate 0.1 and rounding decides whether a root is
+      # kept.  The gate is C03's subject; here it is opened so that the full scale range stays comparable.
+      cfg["ift"] = 1e30
     strict = (i % 6 == 0)
     if strict:
       cfg["sfreq"] = 1     # under efficient_cond the statistics are computed inside a compiled while body
     cases.append(dict(kind="ds", cfg=cfg, shape=shape, T=rng.rint(1, 3) if strict else rng.rint(1, 5),
                       eager=strict,
                       hist=rng.choice(["normal", "normal", "int"]),
-                      scales=[rng.rint(-6, 6) for _ in range(nb)] if i % 5 else [0] * nb,
-                      companions=comps, seed=rng.next()))
+                      scales=scales, companions=comps, seed=rng.next()))
   tf_shapes = {2: [[4], [4, 2], [2, 4], [4, 4], [6, 2], [8, 2], [2, 6]],
                3: [[6], [6, 3], [3, 6], [6, 6], [6, 2], [2, 9], [9, 3]],
                4: [[8], [8, 4], [4, 8], [8, 3], [3, 8, 2], [8, 8], [12, 2]]}
@@ -172,10 +177,9 @@ def run_impl(cases):
   return [out[i] for i in range(len(cases))]
 
 
-GATE = 0.1      # inverse_failure_threshold (default): a root with reported error >= GATE is discarded
 
 
-def gate_ambiguous(step):
+def gate_ambiguous(step, GATE=0.1):
   """A reported root error within a factor 4 of the acceptance gate (or non-finite, or on different
   sides of it in the three runs): rounding noise decides whether the new root replaces the old one,
   a discrete decision the comparison cannot follow (DESIGN 3: guard within tolerance of its threshold
@@ -201,7 +205,7 @@ def evaluate(ctx, results, tag):
       # the history is checked up to (excluding) the first step with an ambiguous acceptance gate
       n = len(r["steps"])
       for t, st in enumerate(r["steps"]):
-        if gate_ambiguous(st):
+        if gate_ambiguous(st, r["case"]["cfg"].get("ift", 0.1)):
           r["gate_skipped"] = n - t
           r["steps"] = r["steps"][:t]
           break
@@ -328,7 +332,7 @@ def setup(ctx):
       "same form as C01's slack); the update tolerance uses the OBSERVED preconditioner differences; "
       "Tearfree roots bitwise",
       "a step at which some reported root error lies within a factor 4 of the acceptance gate "
-      "(inverse_failure_threshold = 0.1), is non-finite, or falls on different sides of the gate in the three "
+      "(inverse_failure_threshold = 0.1; opened to 1e30 for eigh cases with gradient scales >= 1e2, whose absolute eigh residual would sit at the gate), is non-finite, or falls on different sides of the gate in the three "
       "runs ends the checked part of that history (rounding decides a discrete keep-old / take-new choice); "
       "such steps are counted, the run fails above 5%",
       "with a grafting type other than NONE the per-block updates are compared after normalising by the "
